@@ -42,7 +42,7 @@ def gen_case(rng, tier, idx):
             tr.append({"op": "permute", "order": list(p)})
         elif kind == "extra_cols":
             tr.append({"op": "extra_cols", "names": rng.sample(["Wind", "Rad", "Station", "Tdew", "Year", "Day"], rng.randint(1, 3)),
-                       "pos": rng.choice(["front", "back", "mixed"]), "seed": rng.getrandbits(16)})
+                       "pos": rng.choice(["front", "back", "mixed"]), "seed": rng.getrandbits(16), "gaps": rng.random() < 0.5})
         elif kind == "reindex":
             tr.append({"op": "reindex", "kind": rng.choice(["shuffled", "strings", "dates", "offset", "reversed_ints"]), "seed": rng.getrandbits(16)})
         elif kind == "pad_front":
@@ -74,6 +74,9 @@ def apply_transforms(df, transforms):
                 if name in df.columns:
                     continue
                 vals = g.uniform(-5, 5, len(df)) if name != "Station" else np.array(["st%d" % (i % 3) for i in range(len(df))], dtype=object)
+                if t.get("gaps") and name != "Station":
+                    # an unrelated measurement column with missing values (sparse sensor record)
+                    vals = np.where(g.random(len(df)) < 0.15, np.nan, vals)
                 where = t["pos"]
                 loc = 0 if where == "front" else (len(df.columns) if where == "back" else int(g.integers(0, len(df.columns) + 1)))
                 df.insert(loc, name, vals)
